@@ -81,6 +81,7 @@ func modeSec(c *Ctx) {
 	for _, k := range keys {
 		fieldOf[k] = c.schemeField(schemes[k])
 	}
+	rejectWithRequest := false
 	// install: authenticator of scheme k accepts iff token == "good-"+k and tags the context
 	install := func(nilScheme string) {
 		for _, f := range c.securityFields() {
@@ -103,6 +104,10 @@ func modeSec(c *Ctx) {
 						nr := r.WithContext(context.WithValue(r.Context(), ctxTagKey{}, append(append([]string{}, prev...), k2)))
 						return []reflect.Value{reflect.ValueOf(nr), reflect.ValueOf(true)}
 					}
+				}
+				if rejectWithRequest {
+					// "(r, false)" is as legal a refusal as "(nil, false)"
+					return []reflect.Value{reflect.ValueOf(r), reflect.ValueOf(false)}
 				}
 				return []reflect.Value{reflect.Zero(httpReqType), reflect.ValueOf(false)}
 			}))
@@ -129,7 +134,8 @@ func modeSec(c *Ctx) {
 		}
 		req := c.Doc.EffectiveSecurity(*op.Spec)
 		path := c.Base + concrete(splitSegs(op.Path), nil)
-		for _, nilScheme := range nilOptions {
+		for ni, nilScheme := range nilOptions {
+			rejectWithRequest = ni%2 == 0
 			install(nilScheme)
 			for _, as := range assigns {
 				r := NewRequest(op.Method, path, "", nil, nil)
